@@ -147,6 +147,16 @@ func fileContent(format, what string) []byte {
 		return corpus(format, "large")[0]
 	case "longline":
 		return corpus(format, "longline")[0]
+	case "gzip-magic": // arbitrary bytes that happen to begin like a gzip stream
+		return append([]byte{0x1f, 0x8b, 0x08, 0x00, 0x00, 0x00, 0x00, 0x00, 0x00, 0xff, '\n'}, corpus(format, "small")[0]...)
+	case "gzip-bytes": // the CONTENT is a gzip stream of valid text: under a plain name File must not decompress it, under .gz exactly once
+		var zb bytes.Buffer
+		zw := gzip.NewWriter(&zb)
+		zw.Write(corpus(format, "medium")[0])
+		zw.Close()
+		return zb.Bytes()
+	case "zstd-magic":
+		return append([]byte{0x28, 0xb5, 0x2f, 0xfd, '\n'}, corpus(format, "small")[0]...)
 	case "line-70KiB", "line-2MiB": // one very long line between ordinary records
 		n := map[string]int{"line-70KiB": 70000, "line-2MiB": 2<<20 + 3}[what]
 		long := string(longSeq(n))
@@ -369,7 +379,7 @@ func runC06(r *core.Run) {
 	core.Clause(r, "file-grid", core.Opts{Rule: "every format (SAM: File and FileHeader) x {plain, .gz written with compress/gzip} x content {empty file, one record, many records, a file whose decode ends in an error item, the 9 KiB file, the long-line file, a file with one line of 70 000 bytes, one with a line of 2 MiB, a ~300 KiB file} plus a multi-member .gz: File(path) yields what Reader yields on the bytes; a missing path yields exactly one item, an error; non-trivial = all"},
 		func(emit func(c06File) bool) {
 			for _, f := range formats {
-				for _, what := range []string{"empty", "one", "many", "error", "error-middle", "large", "longline", "line-70KiB", "line-2MiB", "huge", "missing"} {
+				for _, what := range []string{"empty", "one", "many", "error", "error-middle", "large", "longline", "line-70KiB", "line-2MiB", "huge", "gzip-magic", "zstd-magic", "gzip-bytes", "missing"} {
 					for _, gz := range []bool{false, true} {
 						emit(c06File{f.Name, what, gz})
 					}
